@@ -32,9 +32,12 @@ def propagate_viability_from_node(node: AttackGraphNode) -> None:
     for child in node.children:
         original_value = child.is_viable
         if child.type == 'or':
-            child.is_viable = False
+            # A node can be its own parent, so do not overwrite its status
+            # before all of the parents have been read.
+            is_viable = False
             for parent in child.parents:
-                child.is_viable = child.is_viable or parent.is_viable
+                is_viable = is_viable or parent.is_viable
+            child.is_viable = is_viable
         if child.type == 'and':
             child.is_viable = False
 
@@ -72,12 +75,15 @@ def propagate_necessity_from_node(node: AttackGraphNode) -> None:
         if child.type == 'or':
             child.is_necessary = False
         if child.type == 'and':
-            child.is_necessary = False
+            # A node can be its own parent, so do not overwrite its status
+            # before all of the parents have been read.
+            is_necessary = False
             for parent in child.parents:
                 # Parents that have a TTC probability distribution do not
                 # pass on their unnecessary state (see above).
-                child.is_necessary = child.is_necessary or \
+                is_necessary = is_necessary or \
                     parent.is_necessary or _has_ttc_distribution(parent)
+            child.is_necessary = is_necessary
 
         # TODO: Update TTC for child attack step before if it is not necessary
         # before propagating it further.
